@@ -20,21 +20,21 @@ import (
 // expected gaps are exact, not tolerance windows.
 
 type c17Scenario struct {
-	Kind        string    `json:"kind"` // "retry" | "breaker"
-	Seed        uint64    `json:"seed"`
-	MaxAttempts int       `json:"max_attempts"`
-	Init, Max   Dur       `json:"-"`
-	InitNs      int64     `json:"init_ns"`
-	MaxNs       int64     `json:"max_ns"`
-	Mult        float64   `json:"mult"`
-	Jitter      float64   `json:"jitter"`
-	Script      string    `json:"script"`
-	OpDur       []int64   `json:"op_dur_ns"`
-	CancelAt    int64     `json:"cancel_at_ns"` // -1 none
-	Breaker     bool      `json:"breaker"`
-	Threshold   int       `json:"threshold"`
-	Cooldown    int64     `json:"cooldown_ns"`
-	Gaps        []int64   `json:"gaps_ns"` // breaker: time between calls
+	Kind        string  `json:"kind"` // "retry" | "breaker"
+	Seed        uint64  `json:"seed"`
+	MaxAttempts int     `json:"max_attempts"`
+	Init, Max   Dur     `json:"-"`
+	InitNs      int64   `json:"init_ns"`
+	MaxNs       int64   `json:"max_ns"`
+	Mult        float64 `json:"mult"`
+	Jitter      float64 `json:"jitter"`
+	Script      string  `json:"script"`
+	OpDur       []int64 `json:"op_dur_ns"`
+	CancelAt    int64   `json:"cancel_at_ns"` // -1 none
+	Breaker     bool    `json:"breaker"`
+	Threshold   int     `json:"threshold"`
+	Cooldown    int64   `json:"cooldown_ns"`
+	Gaps        []int64 `json:"gaps_ns"` // breaker: time between calls
 }
 
 func errOf(c byte) error {
